@@ -468,7 +468,10 @@ def build_schema(src, t):
             tok = "F8C-CRASH " + " ".join(log.split("\n")[0:1])[:120]
         res = ("fail", tok)
     else:
+        failmark = os.path.join(d, "compile-failed-" + B.headers_hash())
         try:
+            if os.path.exists(failmark):      # a failed compilation is remembered per header state
+                raise B.BuildError(open(failmark).read())
             objs = B.compile_many(cpps, "asan", extra=["-I" + d, "-O0", "-g0"], extra_hash=d)
             hsrc = os.path.join(B.VERIF, "harness", "h_c13.cpp")
             hh = B.sha(B.read(os.path.join(B.VERIF, "harness", "hcommon.hpp")))
@@ -476,6 +479,7 @@ def build_schema(src, t):
             res = ("exe", B.link([hobj] + objs + B.runtime_objs("asan"), "h_c13", "asan"))
         except B.BuildError as e:
             open(os.path.join(d, "compile.log"), "w").write(str(e))
+            open(failmark, "w").write(str(e)[-4000:])
             res = ("fail", "COMPILE-FAIL")
     with _lock:
         _built[key] = res
